@@ -369,8 +369,10 @@ def build_pipeline(
     pipeline.manual_conflict_resolver = manual_conflict_resolver
 
     if config.dry_run:
-        pipeline.renamer = DryRunRenamer()
         # FIXME: Use custom DryRunMover for path mode?
+        pipeline.renamer = DryRunRenamer(
+            same_directory_only=config.mode != OperationMode.path
+        )
     else:
         if config.mode == OperationMode.name or config.mode == OperationMode.directory:
             pipeline.renamer = FileRenamer()
